@@ -500,6 +500,20 @@ func Args(tag string) []int {
 	return xs
 }
 
+// InitArgs returns k <= I arbitrary integers for a constructor's initial values (none when cfg I is 0 or absent).
+func InitArgs() []int {
+	I := v.CfgOr("I", 0)
+	if I == 0 {
+		return nil
+	}
+	k := v.Split(v.IntIn("ik", 0, I), 0, 8)
+	xs := make([]int, k)
+	for j := 0; j < k; j++ {
+		xs[j] = v.Int("i")
+	}
+	return xs
+}
+
 // KeysOf wraps plain keys as items.
 func KeysOf(keys []int) []Item {
 	out := make([]Item, len(keys))
